@@ -69,6 +69,9 @@ type Config struct {
 	// RegNoWhitelist: the application configured no extra registration fields at all
 	// (defaults.HTTPBodyReader.Whitelist["register"] removed).
 	RegNoWhitelist bool `json:"regNoWhitelist"`
+	// AppHandles2FA: the application subscribes to After(EventTwoFactorAdded / Removed) and answers
+	// the request itself (a custom redirect), i.e. its handler returns handled = true.
+	AppHandles2FA bool `json:"appHandles2FA"`
 }
 
 func (c Config) Has(m string) bool {
@@ -529,8 +532,12 @@ var AllSessionKeys = []string{
 	totp2fa.SessionTOTPSecret, totp2fa.SessionTOTPPendingPID,
 	sms2fa.SessionSMSNumber, sms2fa.SessionSMSSecret, sms2fa.SessionSMSLast, sms2fa.SessionSMSPendingPID,
 	"sms_secret_number",
-	authboss.FlashSuccessKey, authboss.FlashErrorKey, "app1", "app2",
+	authboss.FlashSuccessKey, authboss.FlashErrorKey, AppKeys["app1"], AppKeys["app2"],
 }
+
+// AppKeys are the concrete names of the application's own session keys (the
+// whitelist candidates). They deliberately embed names of the library's keys.
+var AppKeys = map[string]string{"app1": "visitor_uuid", "app2": "hide_twofactor_hint"}
 
 // Providers configured on every instance that loads oauth2.
 var Providers = []string{"pa", "pb"}
@@ -579,7 +586,9 @@ func New(cfg Config) (*Instance, error) {
 		ab.Config.Storage.SessionState = HeaderStore{"session"}
 		ab.Config.Storage.CookieState = HeaderStore{"cookie"}
 	}
-	ab.Config.Storage.SessionStateWhitelistKeys = append([]string(nil), cfg.Whitelist...)
+	for _, k := range cfg.Whitelist {
+		ab.Config.Storage.SessionStateWhitelistKeys = append(ab.Config.Storage.SessionStateWhitelistKeys, AppKeys[k])
+	}
 	ab.Config.Paths.Mount = "/auth"
 	ab.Config.Paths.RootURL = "http://site.test"
 	ab.Config.Paths.AuthLoginOK = "/ok/login"
@@ -669,6 +678,14 @@ func New(cfg Config) (*Instance, error) {
 				return nil, err
 			}
 		}
+	}
+	if cfg.AppHandles2FA {
+		appHandler := func(w http.ResponseWriter, r *http.Request, handled bool) (bool, error) {
+			ro := authboss.RedirectOptions{Code: http.StatusTemporaryRedirect, RedirectPath: "/app/tfa-changed"}
+			return true, ab.Config.Core.Redirector.Redirect(w, r, ro)
+		}
+		ab.Events.After(authboss.EventTwoFactorAdded, appHandler)
+		ab.Events.After(authboss.EventTwoFactorRemoved, appHandler)
 	}
 	in.LockMod = &lock.Lock{Authboss: ab}
 	in.ConfMod = &confirm.Confirm{Authboss: ab}
